@@ -202,15 +202,19 @@ func (dts *DataTypeService) findMetadata(key []byte, dt dataType) (*metadata, er
 	if err == bitcask.ErrKeyNotFound {
 		exist = false
 	} else {
-		// key 存在, 进行解码
-		meta = decodeMetadata(metaBuf)
-		// 判断数据类型是否正确
-		if meta.dataType != dt {
-			return nil, ErrWrongTypeOperation
+		// key 存在, 先解析类型与过期时间, 二者在 String 编码与元数据编码中的位置一致
+		// 已过期的 key 视为不存在, 允许以任意类型重新创建, 故过期判断必须先于类型判断
+		// 类型不符时不应继续按元数据格式解码, 其余字节是 String 的 value 而非元数据字段
+		var expire int64
+		if len(metaBuf) > 1 {
+			expire, _ = binary.Varint(metaBuf[1:])
 		}
-		// 判断是否过期
-		if meta.expire != 0 && meta.expire <= time.Now().UnixNano() {
+		if expire != 0 && expire <= time.Now().UnixNano() {
 			exist = false // 过期仍视为不存在
+		} else if len(metaBuf) == 0 || metaBuf[0] != dt {
+			return nil, ErrWrongTypeOperation
+		} else {
+			meta = decodeMetadata(metaBuf)
 		}
 	}
 
